@@ -52,6 +52,18 @@ Theorem C09_unguarded_ponder_races :
 Proof. exact unguarded_ponder_races. Qed.
 Print Assumptions C09_unguarded_ponder_races.
 
+(** Summary (strongest statement proved): in every schedule of the model from the initial state,
+    two conflicting accesses to ANY modelled location that are not ordered by happens-before can
+    only be an access to the option values or the table geometry / generation by a HELPER thread
+    against an access of another thread *)
+Theorem C09_model_drf_partial : forall N parent ls tr i j a b,
+  trace_of N parent true xinit ls = Some tr ->
+  i < j -> at_ tr i = Some a -> at_ tr j = Some b -> conflictb a b = true -> ~ hb tr i j ->
+  sel opt_or_tt a = true /\
+  ((ev_tid a <> 0 /\ ev_tid a <> uci N) \/ (ev_tid b <> 0 /\ ev_tid b <> uci N)).
+Proof. exact model_drf_partial. Qed.
+Print Assumptions C09_model_drf_partial.
+
 (** full statement for the modelled locations (not proved: the ordering of the helpers' reads of
     option values / TT geometry against the engine thread's writes goes through the START and
     STOP_ACK message edges of the whole communicator tree; it is checked on recorded traces) *)
